@@ -281,9 +281,13 @@ func (pp *Points) TakeFrom(src []byte) ([]byte, error) {
 		return nil, &WantLargerBufferError{WantedBufSize: uint64Size}
 	}
 
-	count := int(binary.BigEndian.Uint64(src))
+	ucount := binary.BigEndian.Uint64(src)
 	src = src[uint64Size:]
+	if ucount > (math.MaxInt64-uint64Size)/pointSize {
+		return nil, errors.New("too many points")
+	}
 
+	count := int(ucount)
 	wantedSize := count * pointSize
 	if len(src) < wantedSize {
 		return nil, &WantLargerBufferError{WantedBufSize: uint64Size + wantedSize}
